@@ -239,6 +239,23 @@ let handle (toks : string list) : string =
         (if r.r_errors = [] then "-" else String.concat "," (List.map (fun ((p, a), e) -> Printf.sprintf "%s:%s:%s" (str_of_path p) (act_str a) (err_str e)) r.r_errors))
         (if r.r_events = [] then "-" else String.concat "," (List.map (fun (a, p) -> Printf.sprintf "%s:%s" (act_str a) (str_of_path p)) r.r_events))
         (str_of_fs r.r_fs u)
+  | ["CD"; local; mode; size; ext; sample] ->
+      let m = (match mode with "auto" -> DAuto | "extension" -> DExtension | "always" -> DAlways | _ -> DNever) in
+      let sm = (match sample with "c" -> SCompressible | "i" -> SIncompressible | "e" -> SError | _ -> SNoPath) in
+      (match should_compress_smart (local = "1") m (zint size) (ext = "1") sm with CNone -> "dec=none" | CLz4 -> "dec=lz4" | CZstd -> "dec=zstd")
+  | ["SN"; h] -> if sniff_receive_file (bytes_of_hex h) then "magic=1" else "magic=0"
+  | ["SP"; total; regs; stream] ->
+      let rs = if regs = "-" then [] else List.map (fun r -> match String.split_on_char ':' r with
+        | [a; b] -> (nat_of_int (int_of_string a), nat_of_int (int_of_string b)) | _ -> failwith "reg") (String.split_on_char ';' regs) in
+      (match receive_sparse (nat_of_int (int_of_string total)) rs (bytes_of_hex stream) with
+       | Some f -> "rc=0 out=" ^ hex_of_bytes f | None -> "rc=1")
+  | ["DX"; ext] ->
+      (* extent map isdata:len,... -> detected regions *)
+      let e = if ext = "-" then [] else List.map (fun r -> match String.split_on_char ':' r with
+        | [a; b] -> ((a = "1"), nat_of_int (int_of_string b)) | _ -> failwith "run") (String.split_on_char ',' ext) in
+      let rec int_of_nat = function O -> 0 | S n -> 1 + int_of_nat n in
+      let rs = detect e in
+      if rs = [] then "regs=-" else "regs=" ^ String.concat ";" (List.map (fun (o, l) -> Printf.sprintf "%d:%d" (int_of_nat o) (int_of_nat l)) rs)
   | _ -> "BADCASE"
 
 let () =
